@@ -6,9 +6,11 @@
    panics / loops / hits UB, and the contents afterwards are the abstract map's.
    The remaining theorems are the property's sentences, stated on the abstract map the
    implementation is proved equal to.
-   OBLIGATIONS: C01_history_agrees_with_reference_map C01_no_call_panics C01_step_agrees C01_insert_returns_previous_keeps_first_key C01_remove_returns_stored_leaves_rest C01_get_mut_changes_only_that_key C01_len_counts_distinct_keys C01_arena_level_mutators_simulate C01_nonvacuous *)
+   OBLIGATIONS: C01_history_agrees_with_reference_map C01_no_call_panics C01_step_agrees C01_insert_returns_previous_keeps_first_key C01_remove_returns_stored_leaves_rest C01_get_mut_changes_only_that_key C01_len_counts_distinct_keys C01_arena_level_mutators_simulate C01_nonvacuous C01_reachable_states_good C01_reachable_states_have_room C01_arena_level_on_reachable C01_contents_agree_all_ops C01_remove_keeps_other_entries C01_insert_keeps_other_entries C01_get_mut_finds_what_get_finds *)
 From BPT Require Import Common.Base Common.AMap Rust.Arena Rust.Tree Rust.Heap Rust.Readers Rust.Run
      Rust.InvDefs Rust.Repr Rust.Spec Rust.ReachDefs Rust.Lib Rust.TreeFactsI Rust.Reach Rust.ReadersGet Rust.HeapOps Rust.HeapOpsSim Props.Reachable.
+From BPT Require Extra.RustExtra2.
+From BPT Require Extra.RustExtra.
 
 Theorem C01_history_agrees_with_reference_map :
   forall (V : Type) (c : nat) (ops : list (op V)),
@@ -107,3 +109,47 @@ Proof.
 Qed.
 
 Definition C01_nonvacuous := (ReachExamples.ex_agree, ReachExamples.ex_fits, ReachExamples.ex_abstract).
+
+(* every reachable state is Good: discharges the hypothesis Good n b of the per-step theorems (C01_step_agrees, C04_every_step_preserves, C10_checked_calls_equal_basic_calls, C11_returned_object_is_the_stored_one) for all reachable states *)
+Theorem C01_reachable_states_good : forall (V : Type) (c : nat) (ops : list (op V)), 4 <= c -> fits (ops_weight ops) ->
+  exists b, state_after c ops = Some b /\ Good (ops_weight ops) b.
+Proof. exact RustExtra.reachable_states_good. Qed.
+
+(* ... and has the arena room the arena-level simulation and the growth theorem ask for *)
+Theorem C01_reachable_states_have_room : forall (V : Type) (c : nat) (ops : list (op V)), 4 <= c -> fits (ops_weight ops + 1) ->
+  exists b, state_after c ops = Some b /\ Inv b /\ rooms b /\
+    room (lmeta b) 1 /\ room (bmeta b) (height (root b) + 2).
+Proof. exact RustExtra.reachable_states_have_room. Qed.
+
+(* on EVERY reachable state the arena-level mutators (HeapOps.v: what the crate's code does slot by slot, free lists and freed-slot contents included) produce exactly flatten of the tree-level result *)
+Theorem C01_arena_level_on_reachable : forall (V : Type) (c : nat) (ops : list (op V)) (o : op V), 4 <= c -> fits (ops_weight ops + 1) ->
+  exists b, state_after c ops = Some b /\
+    match mut_A (flatten b) o with
+    | Some r => r = Ok (flatten (fst (step b o)), snd (step b o))
+    | None => True
+    end.
+Proof. exact RustExtra.arena_level_on_reachable. Qed.
+
+(* refinement also for histories that interleave the two non-abstract read-only calls (OFromPos, OIntrospect) *)
+Theorem C01_contents_agree_all_ops : forall (V : Type) (c : nat) (ops : list (op V)), 4 <= c -> fits (ops_weight ops) ->
+  exists b0, b_new V c = Some b0 /\
+    fst (spec_run [] ops) = contents (root (fst (run b0 ops))) /\
+    forall i o, nth_error ops i = Some o -> abstract_op o = true ->
+      nth_error (snd (run b0 ops)) i = nth_error (snd (spec_run [] ops)) i.
+Proof. exact RustExtra2.contents_agree_all_ops. Qed.
+
+(* remove leaves every other ENTRY (key object and value) untouched *)
+Theorem C01_remove_keeps_other_entries : forall (V:Type) (m:AMap.amap V) z, m_sorted m ->
+  forall e, In e (m_remove m z) <-> (In e m /\ kz (fst e) <> z).
+Proof. exact RustExtra2.remove_keeps_other_entries. Qed.
+
+Theorem C01_insert_keeps_other_entries : forall (V:Type) (m:AMap.amap V) k v, m_sorted m ->
+  forall e, kz (fst e) <> kz k -> (In e (m_insert m k v) <-> In e m).
+Proof. exact RustExtra2.insert_keeps_other_entries. Qed.
+
+(* get_mut obtains a reference exactly when get finds the key, and does nothing otherwise *)
+Theorem C01_get_mut_finds_what_get_finds : forall (V:Type) n (b:bstate V) z v, Good n b -> fits (n + 1) ->
+  exists b' ok, b_get_mut_write b z v = Ok (b', ok) /\
+    h_get (flatten b) z = Ok (if ok then m_get (contents (root b)) z else None) /\
+    (ok = false -> b' = b).
+Proof. exact RustExtra2.get_mut_finds_what_get_finds. Qed.
